@@ -17,6 +17,9 @@ func (g *AggregatorPlanner) IsMatrix() bool {
 func (p *AggregatorPlanner) process(ctx *shared.PlannerContext,
 	in chan []shared.LogEntry, ops aggregatorPlannerOps) (chan []shared.LogEntry, error) {
 
+	if p.Duration.Nanoseconds() <= 0 {
+		return nil, &shared.NotSupportedError{Msg: "range duration must be positive"}
+	}
 	streamLen := ctx.To.Sub(ctx.From).Nanoseconds() / p.Duration.Nanoseconds()
 	if streamLen > 4000000000 {
 		return nil, &shared.NotSupportedError{Msg: "stream length is too large. Please try increasing duration."}
